@@ -1845,7 +1845,51 @@ func helperPerforms(h *ssa.Function, direct func(ssa.Instruction) bool, mode str
 		}
 		n++
 		if ReachesWithout(h, ret, OrDeferred(direct)) {
-			return false
+			// the action is a method call on an optional component held in a field
+			// (`if s.store == nil { return }; s.store.Do()`): paths on which that component is
+			// absent have nothing to perform
+			comp := ""
+			Instrs(h, func(in ssa.Instruction) {
+				if ci, ok := in.(ssa.CallInstruction); ok && direct(in) {
+					if rv := Recv(ci); rv != nil {
+						if _, f, _, ok := FieldOf(rv); ok {
+							comp = f
+						}
+					}
+				}
+			})
+			if comp == "" {
+				return false
+			}
+			via := OrDeferred(direct)
+			hits := WalkFrom(h.Blocks[0], nil, func(in ssa.Instruction) int {
+				if in == ssa.Instruction(ret) {
+					return Hit
+				}
+				if via(in) {
+					return Stop
+				}
+				return Cont
+			}, func(b *ssa.BasicBlock, succ int) bool {
+				last, ok := b.Instrs[len(b.Instrs)-1].(*ssa.If)
+				if !ok {
+					return true
+				}
+				c, pol := normCond(last.Cond, true)
+				if x, tmn, ok := NilTest(c); ok {
+					if _, fld, _, ok := FieldOf(x); ok && fld == comp {
+						nilSucc := 0
+						if tmn != pol {
+							nilSucc = 1
+						}
+						return succ != nilSucc
+					}
+				}
+				return true
+			})
+			if len(hits) > 0 {
+				return false
+			}
 		}
 	}
 	return n > 0
